@@ -254,6 +254,13 @@ func (fr *Frame) evalCall(st *State, call *ast.CallExpr, nWant int) []*Term {
 	for _, a := range call.Args {
 		fr.evalIgnore(st, a)
 	}
+	if selx, ok := call.Fun.(*ast.SelectorExpr); ok && fr.top.fc != nil && fr.top.fc.Options["fvlog"] != "" {
+		// `option fvlog`: calls through function-valued fields are recorded by field name (fvN, fvName)
+		n := e.Heap(st, "ghost:fvN", IntSort)
+		names := e.Heap(st, "ghost:fvName", ArrSort(IntSort, StrSort))
+		st.heap["ghost:fvName"] = Store(names, n, e.strLit(selx.Sel.Name))
+		st.heap["ghost:fvN"] = Add(n, IntLit(1))
+	}
 	e.note("call through function value %s: results unconstrained, no heap effect assumed", exprString(call.Fun))
 	return fr.freshResults(st, sig, "fv")
 }
@@ -1083,6 +1090,7 @@ func (fr *Frame) checkCallPre(st *State, fn *types.Func, recv *Term, args []*Ter
 	if fr.top.fc == nil || fr.fn != fr.top.fn {
 		return // call-site preconditions constrain the calls written in the function under contract (and its closures)
 	}
+	defer fr.logCall(st, fn, args)
 	cps := fr.top.fc.CallPre[fn.Name()]
 	if len(cps) == 0 {
 		return
@@ -1107,6 +1115,36 @@ func (fr *Frame) checkCallPre(st *State, fn *types.Func, recv *Term, args []*Ter
 		// checked, then available to what follows (also lets a call-site clause serve as a proof hint)
 		st.Assume(g)
 	}
+}
+
+// logCall: `option calllog f g ..` records the calls of the named callees written in the function under
+// contract in the ghost log (callN, callName[k], callArg0[k], callArg1[k]: integer/reference arguments), after
+// the call-site clauses of that call were checked.
+func (fr *Frame) logCall(st *State, fn *types.Func, args []*Term) {
+	want := false
+	for _, n := range strings.Fields(fr.top.fc.Options["calllog"]) {
+		if n == fn.Name() {
+			want = true
+		}
+	}
+	if !want {
+		return
+	}
+	e := fr.e
+	n := e.Heap(st, "ghost:callN", IntSort)
+	names := e.Heap(st, "ghost:callName", ArrSort(IntSort, StrSort))
+	st.heap["ghost:callName"] = Store(names, n, e.strLit(fn.Name()))
+	k := 0
+	for _, a := range args {
+		if a.S != IntSort || k > 1 {
+			continue
+		}
+		key := fmt.Sprintf("ghost:callArg%d", k)
+		arr := e.Heap(st, key, ArrSort(IntSort, IntSort))
+		st.heap[key] = Store(arr, n, a)
+		k++
+	}
+	st.heap["ghost:callN"] = Add(n, IntLit(1))
 }
 
 // ---------------------------------------------------------------------------
